@@ -43,7 +43,10 @@ pub enum SMsg {
 pub enum Subject {
     Generic { schema: RS, cap: usize, history: Vec<GMsg> },
     /// method: 0 write_ref, 1 write, 2 write_value
-    Specific { type_id: String, method: u8, history: Vec<SMsg> },
+    /// `perm` != 0: the writer is built with `builder().resolved(schema)` where `schema` is the
+    /// type's schema with its record fields in another order (another canonical form, so another
+    /// fingerprint than `T::get_schema()`'s)
+    Specific { type_id: String, method: u8, history: Vec<SMsg>, #[serde(default)] perm: u64 },
 }
 
 #[derive(Clone, Debug, Serialize, Deserialize, PartialEq)]
@@ -438,6 +441,49 @@ fn second_generation_message(ctx: &mut Ctx, when: &str) -> Option<Failure> {
     }
 }
 
+/// A typed writer built for another schema than `T::get_schema()` (same fields, other order): every
+/// message must carry the fingerprint of the schema the writer was given, followed by the datum
+/// in that schema's field order, and the reader for that schema must accept it.
+fn run_specific_other_schema<T: Corp>(perm: u64, history: &[SMsg], ctx: &mut Ctx) -> Option<Failure> {
+    let schema = corpus::permuted_schema(&T::get_schema(), perm);
+    if schema.canonical_form() == T::get_schema().canonical_form() {
+        return None;
+    }
+    ctx.agg.count("probe.typed_writer_built_for_another_schema");
+    let header = expected_header(&schema);
+    let w = match guarded(|| SpecificSingleObjectWriter::<T>::builder().resolved(schema.clone()).map(|b| b.build())) {
+        Ok(Ok(w)) => w,
+        _ => return None,
+    };
+    let dw = GenericDatumWriter::builder(&schema).build().ok()?;
+    let rd = GenericSingleObjectReader::builder().schema(schema.clone()).build().ok()?;
+    for (idx, m) in history.iter().enumerate() {
+        let j = match m {
+            SMsg::Good(j) | SMsg::Sink(j, _) => j,
+        };
+        let t: T = serde_json::from_value(j.clone()).expect("corpus value");
+        let Ok(datum) = dw.write_ser_to_vec(&t) else { continue };
+        let mut out = vec![];
+        ctx.eval();
+        match guarded(|| w.write_ref(&t, &mut out)) {
+            Err(p) => return Some(Failure::new("panic", "C18 panic writer=specific.other-schema".to_string(), format!("call #{idx} panicked: {p}"))),
+            Ok(Err(_)) => continue,
+            Ok(Ok(_)) => {}
+        }
+        if let Some(f) = judge_ok_message(&header, &datum, &out, idx, "specific.other-schema", "start", None) {
+            return Some(f);
+        }
+        if let Ok(Err(e)) = guarded(|| rd.read_value(&mut &out[..])) {
+            return Some(Failure::new(
+                "own-message-rejected",
+                "C18 own-message-rejected writer=specific.other-schema".to_string(),
+                format!("message #{idx} of a typed writer built for another schema is rejected by the reader for that schema: {e}"),
+            ));
+        }
+    }
+    None
+}
+
 fn run_specific<T: Corp + From<Value> + Into<Value>>(method: u8, history: &[SMsg], case: &Case, ctx: &mut Ctx) -> Option<Failure> {
     let twin = T::ID == "Flat";
     if twin && history.len() % 2 == 0 {
@@ -633,7 +679,7 @@ impl Property for C18 {
                 let j = serde_json::to_value(T::gen(&mut wr)).unwrap();
                 if wr.chance(1, 4) { SMsg::Sink(j, gen_sink_plan(&mut wr, true)) } else { SMsg::Good(j) }
             }).collect());
-            Subject::Specific { type_id: id.into(), method: wr.below(3) as u8, history }
+            Subject::Specific { type_id: id.into(), method: wr.below(3) as u8, history, perm: if wr.chance(1, 4) { wr.next_u64() | 1 } else { 0 } }
         };
         Some(Case { subject, header_damage: wr.chance(1, 3), only_damage: None })
     }
@@ -641,8 +687,10 @@ impl Property for C18 {
     fn execute(&self, case: &Case, ctx: &mut Ctx) -> Option<Failure> {
         match &case.subject {
             Subject::Generic { schema, cap, history } => run_generic(schema, *cap, history, case, ctx),
-            Subject::Specific { type_id, method, history } => {
-                with_corpus!(type_id.as_str(), T => run_specific::<T>(*method, history, case, ctx))
+            Subject::Specific { type_id, method, history, perm } => {
+                with_corpus!(type_id.as_str(), T => {
+                    if *perm != 0 { run_specific_other_schema::<T>(*perm, history, ctx) } else { run_specific::<T>(*method, history, case, ctx) }
+                })
             }
         }
     }
@@ -710,13 +758,13 @@ impl Property for C18 {
                     out.push(c);
                 }
             }
-            Subject::Specific { type_id, method, history } => {
+            Subject::Specific { type_id, method, history, perm } => {
                 for i in (0..history.len()).rev() {
                     if history.len() > 1 {
                         let mut h = history.clone();
                         h.remove(i);
                         let mut c = case.clone();
-                        c.subject = Subject::Specific { type_id: type_id.clone(), method: *method, history: h };
+                        c.subject = Subject::Specific { type_id: type_id.clone(), method: *method, history: h, perm: *perm };
                         out.push(c);
                     }
                 }
@@ -731,7 +779,7 @@ impl Property for C18 {
                 "writer": "GenericSingleObjectWriter", "capacity": cap, "schema": to_json(schema),
                 "history": history.iter().map(|m| match m { GMsg::Good(_) => "good", GMsg::WrongKind => "validation-rejected", GMsg::MissingNullable(_) => "fails-inside-encoder", GMsg::Sink(_, _) => "failing-sink" }).collect::<Vec<_>>(),
                 "header_damage_set": case.header_damage }),
-            Subject::Specific { type_id, method, history } => json!({
+            Subject::Specific { type_id, method, history, .. } => json!({
                 "writer": format!("SpecificSingleObjectWriter<{type_id}>::{}", ["write_ref", "write", "write_value"][*method as usize % 3]),
                 "history": history.iter().map(|m| match m { SMsg::Good(_) => "good", SMsg::Sink(_, _) => "failing-sink" }).collect::<Vec<_>>(),
                 "header_damage_set": case.header_damage }),
